@@ -5,5 +5,9 @@ import ThriftVerif.Facts.ExpectCompile
 #print axioms ThriftVerif.Properties.C08.compile_total_plain_values
 #print axioms ThriftVerif.Properties.C08.compile_total_closed_defaults
 #print axioms ThriftVerif.Properties.C08.cycle_search_witnesses
+#print axioms ThriftVerif.Properties.C08.cycle_search_memo_agrees
+#print axioms ThriftVerif.Properties.C08.cycle_verdict_fuel_independent
+#print axioms ThriftVerif.Properties.C08.no_cycle_iff_finite_unfolding
+#print axioms ThriftVerif.Properties.C08.module_cycle_check_spec
 #print axioms ThriftVerif.Properties.C08.former_divergence_rejected
 #print axioms ThriftVerif.Facts.ExpectCompile.sites_covered
